@@ -279,6 +279,9 @@ for _o in ['add', 'sub', 'mul', 'truediv']:
     E(_o, 'Z z', op='op:' + _o, key='op_' + _o + '_zc', fam='A', tol=2, ctxs=('mp',))
 E('mod', 'x x', op='op:mod', key='op_mod', fam='A', tol=0, exact=True)
 E('mod', 'u g', op='op:mod', key='op_mod_small', fam='A', tol=0, exact=True)
+E('mod', 'u m', op='op:mod', key='op_mod_int', fam='A', tol=0, exact=True)      # |x| < |y|, y with a short mantissa
+E('mod', 'b m', op='op:mod', key='op_mod_big', fam='A', tol=0, exact=True)
+E('fmod', 'u m', key='fmod_int', fam='B', tol=0, exact=True)
 E('pow', 'x k', op='op:pow', key='op_pow_int', fam='A', tol=0, exact=True)
 E('pow', 'p x', op='op:pow', key='op_pow_rr', fam='A', tol=4)
 E('pow', 'z Z', op='op:pow', key='op_pow_cz', fam='A', tol=4)
